@@ -1278,12 +1278,15 @@ func (fr *Frame) execConvert(st *State, i *ssa.Convert) {
 			isRune = true
 		}
 		if isRune {
-			s := u.enc.freshConst("strconv", "Str")
-			f := u.enc.declFun("str_nrunes", []string{"Str"}, "Int")
-			u.assume(eq(app(f, s), app("sl_len", x.T)))
+			// string([]rune): a deterministic function of the rune contents; its byte length is between n and 4n
+			h := u.arrHeap(el)
+			f := u.enc.declFun("str_of_runes", []string{"(Array Int Int)", "Int", "Int"}, "Str")
+			nr := u.enc.declFun("str_nrunes", []string{"Str"}, "Int")
+			s := app(f, sel(u.heapCur(st, h), app("sl_base", x.T)), app("sl_off", x.T), app("sl_len", x.T))
+			u.assume(eq(app(nr, s), app("sl_len", x.T)))
 			u.assume(and(app("<=", app("sl_len", x.T), app("str_len", s)), app("<=", app("str_len", s), app("*", "4", app("sl_len", x.T)))))
 			fr.define(i, Val{T: s})
-			u.note("string([]rune): contents uninterpreted")
+			u.note("string([]rune): uninterpreted function of the rune contents with n <= byte length <= 4n")
 		} else {
 			fr.define(i, Val{T: u.strOfBytes(st, x.T, el)})
 		}
